@@ -4,6 +4,7 @@ import (
 	"fmt"
 
 	"github.com/evanw/esbuild/internal/js_lexer"
+	"github.com/evanw/esbuild/internal/logger"
 	. "github.com/evanw/esbuild/verifharness/hlib"
 )
 
@@ -64,4 +65,51 @@ func runJSLex(r *Rng, n int, st *Stats, cf *CoqFile) {
 		}
 	}
 	cf.AddCases("jslex_cases", "Z * bytes * Z * Z * Z * Z", "check_jslex", items)
+}
+
+var jsIdPieces = []string{"a", "Z", "_", "$", "0", "9", "#", "\\", "\\u0041", "\\u{41}", "\\u{", "\\u{41", "\\u", "u{", "}", "{", " ", "=", ".", "é", "‌", "‍", " ", "\xF0\x9F\x98\x80", "\xC3", "'", "\"", "`", "\\'", "${", "$", "a'", "\\\\"}
+
+func runJSRoi(r *Rng, n int, st *Stats, cf *CoqFile) {
+	var items []string
+	for i := 0; i < n; i++ {
+		var in []byte
+		for k := r.Intn(7); k > 0; k-- {
+			in = append(in, jsIdPieces[r.Intn(len(jsIdPieces))]...)
+		}
+		var l int32
+		status, msg := guard(func() {
+			l = js_lexer.RangeOfIdentifier(logger.Source{Contents: string(in)}, logger.Loc{Start: 0}).Len
+		})
+		items = append(items, fmt.Sprintf("(%s,%d,%d)", CBytes(in), status, l))
+		st.Note("js-roi", string(in), l > 0)
+		if status != 0 {
+			st.Fail("panic in js_lexer.RangeOfIdentifier", fmt.Sprintf("%q", in), msg, "a range")
+		}
+	}
+	cf.AddCases("jsroi_cases", "bytes * Z * Z", "check_jsroi", items)
+}
+
+var pragmaPieces = []string{" ", "\t", "\n", "\v", "\f", " ", " ", "\uFEFF", " ", "a", "h.x", "=", "data:x", "é", "\xC3", "\xF0\x9F\x98\x80", "*/", "\r", " ", " "}
+
+func runPragma(r *Rng, n int, st *Stats, cf *CoqFile) {
+	var items []string
+	for i := 0; i < n; i++ {
+		pragma := []string{"@jsx", "# sourceMappingURL=", "", "@jsxImportSource", "x"}[r.Intn(5)]
+		in := []byte(pragma)
+		for k := r.Intn(6); k > 0; k-- {
+			in = append(in, pragmaPieces[r.Intn(len(pragmaPieces))]...)
+		}
+		kind := uint8(r.Intn(2))
+		start := r.Intn(50)
+		var text string
+		var s0, ln int32
+		var ok bool
+		status, msg := guard(func() { text, s0, ln, ok = js_lexer.VerifScanForPragmaArg(kind, start, pragma, string(in)) })
+		items = append(items, fmt.Sprintf("(%s,%d,%d,%s,%d,%s,%s,%d,%d)", CBool(kind == 1), start, len(pragma), CBytes(in), status, CBool(ok), CBytes([]byte(text)), s0, ln))
+		st.Note("js-pragma", string(in), ok)
+		if status != 0 {
+			st.Fail("panic in js_lexer.scanForPragmaArg", fmt.Sprintf("%q", in), msg, "a span")
+		}
+	}
+	cf.AddCases("pragma_cases", "bool * Z * Z * bytes * Z * bool * bytes * Z * Z", "check_pragma", items)
 }
